@@ -39,6 +39,9 @@ CHECKS["C05"] = dict(technique="batched differential runtime monitor (bash refer
 CHECKS["C13"] = dict(technique="definitional round-trip oracle at the process boundary: values injected via environment, 14 quoting producers run by brush, text re-read through eval by brush and by bash, recovered bytes observed by an external argv dumper",
    text="Every string up to length 2 (quick) / a 9000-value sample of length 3 plus all of length 2 (thorough) over a 30-symbol quoting alphabet, and random strings to length 40, used as scalar value, array element, associative key and value, alias body and trap command; producers printf %q, ${v@Q}, ${a[*]@Q}, ${v@A}, declare -p (scalar, exported, -a, -A), set, export -p, the set -x trace, ${m[@]@K}, alias, trap -p; each produced text is given back to eval in word or assignment position in brush and in bash and must recreate the injected bytes.",
    note="NUL excluded; alias/trap -p judged through the reader's own printer; open findings: trap -p single quotes and @K (both mirrored by known-failure tests in the repository)", ref="5 C13")
+CHECKS["C09"] = dict(technique="differential runtime monitor with per-step structured state probes (existence, set-ness, attribute set, sorted key/value pairs, child-environment view) over generated action sequences; readonly invariance checked on brush's own probe stream",
+   text="Random sequences of 2-8 top-level actions over 22 kinds (assignment, +=, array element/compound, declare/local with -i -l -u -a -A -x -r and +attr, export, readonly, unset, for, read, printf -v, (( )), ${v:=}, getopts, mapfile, temporary-assignment prefixes on builtins, eval, functions and external commands, declare -g) with function calls nested to depth 3; after every step a probe function records the full state of four names through an external argv dumper and what a child process receives; the probe streams of brush and bash must be identical, and a name that became readonly at top level must never change afterwards.",
+   note="bash 5.2.15 reference; attribute letters as a set, associative keys sorted; open findings C09-F1..F5 (writes to readonly names, exported arrays, local shadowing a temporary assignment / exported name, array redeclaration, export of unset names) and the integer attribute (C07-F1) are not generated", ref="5 C09")
 NA = {}
 
 def main():
